@@ -118,6 +118,12 @@ theorem C16_get_size_query (m : Msg) (dst : D) (nul idx : Nat) :
     ∃ r sz idx', getVarStr m 0 dst nul idx = .ok (r, sz, idx', dst) :=
   getVarStr_zero m dst nul idx
 
+/-- **C16_get_zero_untouched.** A destination of size 0 is never written by the sized `GetStr` either, whatever
+the payload, the index and the field length (every exit: field fits, field does not fit). -/
+theorem C16_get_zero_untouched (m : Msg) (dst : D) (length nul idx : Nat) :
+    getStr2 m 0 dst length nul idx = .ok (true, idx + length, dst) := by
+  simp [getStr2]
+
 /-- Why the unsized `GetStr` needs `Length+1` bytes: with exactly `Length` bytes it writes one byte too far. -/
 theorem C16_getStr1_contract_witness :
     (getStr1 ⟨fun _ => 0x41, 3⟩ 2 (fun _ => 1) 2 0).toOption.isNone = true ∧
